@@ -277,6 +277,8 @@ def _make_field(line, enums):
         r = ev(_expr, ctx)
         if isinstance(r, Raw):
             return raw_python_value(r, _line, ctx)
+        if _line.get('raw'):
+            return r
         return cast(r, _line)
 
     t = line['type']
